@@ -4,7 +4,7 @@
 // terminal_is_recognised).  One instantiation per format because the hook structs are private.
 
 use super::*;
-use crate::verif_common::{instr_time_is_stored, label_round_trip, instr_round_trip, instr_size_field, terminal_is_recognised, Stored, SizeField};
+use crate::verif_common::{read_instr_never_panics, decode_label_never_panics, instr_time_is_stored, label_round_trip, instr_round_trip, instr_size_field, terminal_is_recognised, Stored, SizeField};
 
 macro_rules! c03 {
     ($name:ident, $unwind:literal, $body:expr) => {
@@ -13,6 +13,19 @@ macro_rules! c03 {
         #[kani::stub(alloc::fmt::format, crate::verif_common::stub_fmt_format)]
         #[kani::stub(crate::error::ErrorReported::new, crate::verif_common::stub_error_reported_new)]
         #[kani::stub(crate::io::nice_display_path, crate::verif_common::stub_nice_display_path)]
+        #[kani::stub(crate::llir::fit_instr_field, crate::verif_common::stub_fit_instr_field)]
+        #[kani::stub(crate::llir::forbid_reserved_opcode, crate::verif_common::stub_forbid_reserved_opcode)]
+        fn $name() { $body }
+    };
+}
+macro_rules! c16 {
+    ($name:ident, $unwind:literal, $body:expr) => {
+        #[kani::proof]
+        #[kani::unwind($unwind)]
+        #[kani::stub(alloc::fmt::format, crate::verif_common::stub_fmt_format)]
+        #[kani::stub(crate::error::ErrorReported::new, crate::verif_common::stub_error_reported_new)]
+        #[kani::stub(crate::io::nice_display_path, crate::verif_common::stub_nice_display_path)]
+        #[kani::stub(crate::diagnostic::RootEmitter::emit, crate::verif_common::stub_root_emit)]
         #[kani::stub(crate::llir::fit_instr_field, crate::verif_common::stub_fit_instr_field)]
         #[kani::stub(crate::llir::forbid_reserved_opcode, crate::verif_common::stub_forbid_reserved_opcode)]
         fn $name() { $body }
@@ -32,6 +45,19 @@ c03!(c03_label_ecl10, 2, label_round_trip(&ModernEclHooks, 1));
 
 //@ C13 c13_ecl10_time_stored quick default ECL (TH10+): if write_instr accepts an instruction, the time read back from the written bytes is the requested time, for every i32 time (a time that does not fit the field must be rejected, never stored differently)
 c03!(c13_ecl10_time_stored, 8, instr_time_is_stored::<4>(&ModernEclHooks, Stored { param_mask: true, difficulty: true, extra_arg: false, pop_and_arg_count: true, maybe_terminal: false, ignore_param_mask: false }, |_| true));
+
+// ---------------------------------------------------------------------------------------
+// C16, header level: see read_instr_never_panics / decode_label_never_panics in common.rs
+//@ C16 c16_ecl10_read_size0 quick default ECL (TH10+): read_instr on arbitrary header bytes whose size field is 0 (smaller than the header) returns Ok or Err and never panics (no underflow, no failed assert, no out-of-range read)
+c16!(c16_ecl10_read_size0, 20, read_instr_never_panics::<16>(&ModernEclHooks, 6, 2, 0));
+//@ C16 c16_ecl10_read_size15 quick default ECL (TH10+): read_instr on arbitrary header bytes whose size field is 15 (one less than the header) returns Ok or Err and never panics (no underflow, no failed assert, no out-of-range read)
+c16!(c16_ecl10_read_size15, 20, read_instr_never_panics::<16>(&ModernEclHooks, 6, 2, 15));
+//@ C16 c16_ecl10_read_size16 quick default ECL (TH10+): read_instr on arbitrary header bytes whose size field is 16 (header only) returns Ok or Err and never panics (no underflow, no failed assert, no out-of-range read)
+c16!(c16_ecl10_read_size16, 20, read_instr_never_panics::<16>(&ModernEclHooks, 6, 2, 16));
+//@ C16 c16_ecl10_read_size20 quick default ECL (TH10+): read_instr on arbitrary header bytes whose size field is 20 (4 argument bytes) returns Ok or Err and never panics (no underflow, no failed assert, no out-of-range read)
+c16!(c16_ecl10_read_size20, 24, read_instr_never_panics::<20>(&ModernEclHooks, 6, 2, 20));
+//@ C16 c16_label_ecl10_no_panic quick default ECL TH10+ label decoding of an arbitrary 32-bit jump argument never panics
+c16!(c16_label_ecl10_no_panic, 2, decode_label_never_panics(&ModernEclHooks));
 
 #[cfg(kani)]
 #[path = "/verif/.cache/playback/ecl_10.rs"]
